@@ -204,7 +204,7 @@ def model_outcomes(ctx, events):
     import collections
     groups = collections.defaultdict(list)
     for i, e in enumerate(events):
-        if all(0 <= c <= 255 for c in e["text"]) and 0 < len(e["text"]) <= 400:
+        if all(0 <= c <= 255 for c in e["text"]) and 0 < len(e["text"]) <= 1600:
             groups[(e.get("shape", 0), tuple(e.get("mn", ())), tuple(e.get("mx", ())))].append(i)
     out = collections.defaultdict(set)
     for (shape, mn, mx), idx in groups.items():
@@ -238,11 +238,11 @@ def preds():
     # call-site classification of a refusal, from the library's own error text (used only to match known findings)
     # (model_refuses / model_mode are set by classify_refusals: the encoder model of spec/DMEnc.tla refuses the same text under the same
     # hints, in that mode - no reliance on the wording of the library's error message)
-    return {"x12_illegal_character_refusal": lambda e: e.get("cwerr") == 1 and e.get("model_refuses") == 1 and e.get("model_mode") == 3
+    return {"x12_illegal_character_refusal": lambda e: e.get("cwerr") == 1 and e.get("model_refuses") == 1 and e.get("model_mode") in (3, 4)
             and "refusal only when it does not fit" in e.get("failed", ()),
             # the refusal was PREDICTED by the encoder model (spec/DMEnc.tla reaches pc = "error" on this message under these hints although
             # the plain ASCII encodation fits) and is raised where the model raises it: the symbol-size feedback of a mode encoder
-            "refusal_predicted_by_encoder_model": lambda e: e.get("cwerr") == 1 and e.get("model_refuses") == 1 and e.get("model_mode") in (0, 4, 5)
+            "refusal_predicted_by_encoder_model": lambda e: e.get("cwerr") == 1 and e.get("model_refuses") == 1 and e.get("model_mode") in (0, 5)
             and e.get("failed") == ["refusal only when it does not fit"],
             # the same, raised inside the C40 / Text encoder (end-of-data case analysis)
             "c40_text_refusal_predicted_by_encoder_model": lambda e: e.get("cwerr") == 1 and e.get("model_refuses") == 1
